@@ -216,19 +216,22 @@ impl Check for C17 {
         v
     }
     fn workloads(&self) -> Vec<Workload> {
-        vec![Workload { name: "arena-churn+battery", quick: 2500, thorough: 150_000 }, Workload { name: "long-history+battery", quick: 60, thorough: 3000 }, Workload { name: "send-window-recovery", quick: if cfg!(miri) { 20 } else { 1200 }, thorough: if cfg!(miri) { 20 } else { 400_000 } }]
+        vec![Workload { name: "arena-churn+battery", quick: 2500, thorough: 150_000 }, Workload { name: "long-history+battery", quick: 60, thorough: 3000 }, Workload { name: "send-window-recovery", quick: if cfg!(miri) { 20 } else { 1200 }, thorough: if cfg!(miri) { 20 } else { 400_000 } }, Workload { name: "graceful-close-on-a-full-arena", quick: if cfg!(miri) { 10 } else { 1500 }, thorough: if cfg!(miri) { 10 } else { 150_000 } }]
     }
     fn min_nontrivial(&self, tier: Tier) -> usize {
         if tier == Tier::Quick { 200 } else { 2000 }
     }
     fn required_counters(&self) -> Vec<&'static str> {
-        vec!["compactions_moving_entries", "arena_entries_compared", "batteries_compared", "retransmissions_compared", "refused_requests_checked", "acknowledged_entries_freed", "continuations_on_a_fresh_broker_session", "send_windows_refilled", "exchanges_ended_by_a_failure_code", "windows_with_subscribe_requests_in_between", "repeated_pubrecs"]
+        vec!["compactions_moving_entries", "arena_entries_compared", "batteries_compared", "retransmissions_compared", "refused_requests_checked", "acknowledged_entries_freed", "continuations_on_a_fresh_broker_session", "send_windows_refilled", "exchanges_ended_by_a_failure_code", "windows_with_subscribe_requests_in_between", "repeated_pubrecs", "graceful_closes_with_retained_packets", "graceful_closes_refused_for_lack_of_room"]
     }
     fn run(&self, workload: usize, seed: u64, _index: u64, tier: Tier, verbose: bool) -> CaseOut {
         let mut out = CaseOut::default();
         let mut rng = Rng::new(seed);
         if workload == 2 {
             return window_recovery(&mut rng, seed, verbose);
+        }
+        if workload == 3 {
+            return close_on_full_arena(&mut rng, seed, verbose);
         }
         let profile = churn(&mut rng);
         let cfg = {
@@ -421,5 +424,81 @@ fn window_recovery(rng: &mut Rng, seed: u64, verbose: bool) -> CaseOut {
     } else {
         out.count("send_window_cases_not_drained", 1);
     }
+    out
+}
+
+/// C17, integrity across a graceful close: the arena is (nearly) filled with unacknowledged
+/// packets, then the application disconnects with a DISCONNECT that carries properties (such a
+/// packet is encoded in the free part of the arena - if there is any room), and resumes the
+/// session on a new connection. Whatever the outcome of the disconnect, what is replayed is what
+/// was transmitted first.
+fn close_on_full_arena(rng: &mut Rng, seed: u64, verbose: bool) -> CaseOut {
+    use crate::checks::{connect_with, poll0, pubq, run_script};
+    use crate::refcodec::Prop;
+    use crate::steps::{BrokerAct, DiscSpec, FilterSpec, Order, SpMode, SubSpec};
+    let mut out = CaseOut::default();
+    let tx = *rng.pick(&[48usize, 64, 96, 128, 200, 256, 512]);
+    let cfg = CaseCfg { rx: 128, tx, keepalive: 0, ..CaseCfg::default() };
+    let mut steps = vec![connect_with(SpMode::Force(false), AckMode::Hold, vec![])];
+    // fill: requests of assorted sizes, some of them refused for lack of room
+    let mut left = tx as i64;
+    let mut n = 0;
+    while n < 8 && left > 12 {
+        let len = match rng.below(4) {
+            0 => (left as usize).saturating_sub(12 + rng.below(6)),
+            1 => rng.below(10),
+            _ => rng.below((left as usize).min(120)),
+        };
+        if rng.chance(1, 6) {
+            steps.push(Step::Subscribe(SubSpec { filters: vec![FilterSpec { filter: "f/#".into(), max_qos: 1, no_local: false, rap: false, rh: 0 }], props: vec![], cancel_at: None }));
+            left -= 13;
+        } else {
+            steps.push(pubq(1 + rng.below(2) as u8, "f", n as u32, len));
+            left -= len as i64 + 10;
+        }
+        n += 1;
+    }
+    steps.push(poll0());
+    // now and then the oldest is acknowledged, so that the arena has a hole at its start
+    if rng.chance(1, 3) {
+        steps.push(Step::Broker(BrokerAct::Release { n: 1, order: Order::Fifo }));
+        steps.push(poll0());
+        steps.push(poll0());
+    }
+    let room = left.max(0) as usize;
+    let props = match rng.below(5) {
+        0 => vec![Prop::SessionExpiry(3600)],
+        1 => vec![Prop::ReasonString("x".repeat(rng.below(room + 24)))],
+        2 => vec![Prop::UserProperty("k".into(), "v".repeat(rng.below(room + 24)))],
+        3 => vec![Prop::ReasonString("bye".into()), Prop::SessionExpiry(1), Prop::UserProperty("a".into(), "b".into())],
+        _ => vec![Prop::ReasonString("x".repeat(room.saturating_sub(rng.below(12))))],
+    };
+    steps.push(Step::Disconnect(DiscSpec { reason: *rng.pick(&[None, Some(0u8), Some(4)]), props: Some(props), cancel_at: None }));
+    steps.push(Step::DropConn);
+    steps.push(connect_with(SpMode::Force(true), AckMode::Hold, vec![]));
+    for _ in 0..n + 2 {
+        steps.push(poll0());
+    }
+    steps.push(Step::Broker(BrokerAct::Release { n: 99, order: Order::Fifo }));
+    for _ in 0..n + 2 {
+        steps.push(poll0());
+    }
+    let (log, world) = run_script(&cfg, steps, seed);
+    let w = world.borrow();
+    let t = Trace::new(&log, &w);
+    out.evaluations += 1;
+    let nt = m::c17::check(&t, &mut out);
+    let disc = log.ops.iter().find(|o| o.kind == "disconnect");
+    if let Some(d) = disc {
+        let held = d.snap_before.as_ref().map(|s| s.tx.retained.len()).unwrap_or(0);
+        if held > 0 {
+            out.count("graceful_closes_with_retained_packets", 1);
+            if matches!(d.outcome, crate::exec::Outcome::Err(_)) {
+                out.count("graceful_closes_refused_for_lack_of_room", 1);
+            }
+        }
+        out.key(format!("close/{}/{:?}", tx, matches!(d.outcome, crate::exec::Outcome::Ok(_))));
+    }
+    finish_case("C17", &log, &w, &mut out, nt, verbose);
     out
 }
